@@ -474,15 +474,19 @@ theorem context_decode_modulus {bs r : Bytes} {c : Context} (h : Context.decode 
               split at h
               · cases h
               · cases h
-              · simp only [Out.ok.injEq] at h
-                rw [← h.1]
-                have hlen := readSlice_length hm
-                have hlt := readLe_one_lt hn
-                refine ⟨proofOptions_decode_valid ho, by simp only []; omega, by simp only []; omega, ?_⟩
-                intro hz
-                apply hall
-                rw [List.all_eq_true]
-                intro b hb
-                simpa using hz b hb
+              · split at h
+                · cases h
+                · split at h
+                  · cases h
+                  · simp only [Out.ok.injEq] at h
+                    rw [← h.1]
+                    have hlen := readSlice_length hm
+                    have hlt := readLe_one_lt hn
+                    refine ⟨proofOptions_decode_valid ho, by simp only []; omega, by simp only []; omega, ?_⟩
+                    intro hz
+                    apply hall
+                    rw [List.all_eq_true]
+                    intro b hb
+                    simpa using hz b hb
 
 end Wf.Security
